@@ -45,13 +45,15 @@ def main():
     agreeing = 0
     samples = []
     subs = ["build", "default", "run", "emit"]
-    inputs = ["valid", "invalid", "two", "two-invalid", "invalid-uni"]
+    # "clash": two modules export the same symbol, the set does not link (the failure is only known at the very end, when
+    # the modules are combined): the tool must not go on to the backend nor exit 0
+    inputs = ["valid", "invalid", "two", "two-invalid", "invalid-uni", "clash"]
     n = 600 if thorough else 110
     for k in range(n):
         d = os.path.join(work, "c%d" % k)
         os.makedirs(os.path.join(d, "bin"))
         sub = subs[k % 4]
-        inp = inputs[(k // 4) % 5] if k < 40 else rng.pick(inputs)
+        inp = inputs[(k // 4) % 6] if k < 48 else rng.pick(inputs)
         status = rng.pick([0, 0, 3, 7, "signal"]) if sub in ("build", "default", "run") else 0
         retval = rng.below(200)
         log = os.path.join(d, "stub.log")
@@ -69,6 +71,11 @@ def main():
         elif inp == "invalid":
             open(os.path.join(d, "main.pn"), "w").write(INVALID)
             files = ["main.pn"]
+        elif inp == "clash":
+            open(os.path.join(d, "left.pn"), "w").write("pub fn scale(x: i32) -> i32\n{\n\treturn: x * 2\n}\n")
+            open(os.path.join(d, "right.pn"), "w").write("pub fn scale(x: i32) -> i32\n{\n\treturn: x * 3\n}\n")
+            open(os.path.join(d, "main.pn"), "w").write('import "left.pn";\nfn main() -> i32\n{\n\treturn: scale(4)\n}\n')
+            files = rng.pick([["main.pn", "left.pn", "right.pn"], ["right.pn", "main.pn", "left.pn"], ["left.pn", "right.pn", "main.pn"]])
         elif inp == "invalid-uni":
             open(os.path.join(d, "main.pn"), "w").write(INVALID_UNI)
             files = ["main.pn"]
@@ -167,6 +174,12 @@ def main():
                 if not os.path.exists(ll) or b"define" not in open(ll, "rb").read():
                     problems.append("missing or empty %s" % ll)
         dist["%s/%s/exit%d" % (sub, inp, 0 if p.returncode == 0 else 1)] += 1
+        if inp == "clash" and problems == ["no rendered diagnostic"] and p.returncode != 0 and b"symbol multiply defined" in out:
+            # F15 as the command line shows it: LLVM's linker prints its own message and ends the process; the status is
+            # non-zero and no backend runs, but there is no Penne diagnostic
+            rep.violation("c18:link-failure-reported-by-llvm-only", {"argv": argv, "output_tail": out[-600:].decode("utf8", "replace")})
+            shutil.rmtree(d, ignore_errors=True)
+            continue
         if problems:
             rep.violation("argv:" + " ".join(a.replace(d, ".").replace(penne, "penne") for a in argv) + " status=" + str(status), {
                 "argv": argv, "cwd": d, "env_backend": envv.get("PENNE_BACKEND") or envv.get("PENNE_LLI"),
